@@ -73,6 +73,12 @@ var Map zconst.LangMap = map[zconst.ZogType]map[zconst.ZogIssueCode]string{
 		zconst.IssueCodeContains: "Lista debe contener {{contained}}",
 		zconst.IssueCodeFallback: "Lista no es válida",
 	},
+	// custom schemas (z.CustomFunc) have no tests of their own: the texts used when the user gave no message
+	"custom": {
+		zconst.IssueCodeRequired: "Es obligatorio",
+		zconst.IssueCodeNotNil:   "No debe estar vacio",
+		zconst.IssueCodeFallback: "Valor no es válido",
+	},
 	zconst.TypeStruct: {
 		zconst.IssueCodeRequired: "Es obligatorio",
 		zconst.IssueCodeNotNil:   "No debe estar vacio",
